@@ -248,29 +248,59 @@ pub fn child_main(req_path: &str) -> ! {
     install_memo(&req.memo);
 
     let steps = req.steps.clone();
-    for (i, (step, (out, err))) in steps.into_iter().zip(captures.into_iter()).enumerate() {
-        seams::raw_write_all(meta_fd, format!("{{\"start\":{i}}}\n").as_bytes());
-        seams::register_fd(out.as_raw_fd(), FdClass::Out);
-        seams::register_fd(err.as_raw_fd(), FdClass::Out);
-        if let Ok(mut g) = PANIC_INFO.lock() {
-            *g = (String::new(), String::new());
-        }
-        // A fresh thread per command: RandomState caches its keys per thread, and the
-        // shipped binary runs on an 8 MiB main-thread stack.
+    if req.same_thread {
+        // one thread for all steps: thread-local state survives from one command to the next,
+        // as in a long-lived host (Lambda, FFI) that calls the library repeatedly
         let handle = std::thread::Builder::new()
             .stack_size(STACK_BYTES)
-            .spawn(move || run_step(&step, out, err))
+            .spawn(move || {
+                for (i, (step, (out, err))) in steps.into_iter().zip(captures.into_iter()).enumerate() {
+                    seams::raw_write_all(meta_fd, format!("{{\"start\":{i}}}\n").as_bytes());
+                    seams::register_fd(out.as_raw_fd(), FdClass::Out);
+                    seams::register_fd(err.as_raw_fd(), FdClass::Out);
+                    if let Ok(mut g) = PANIC_INFO.lock() {
+                        *g = (String::new(), String::new());
+                    }
+                    let r = std::panic::catch_unwind(std::panic::AssertUnwindSafe(|| run_step(&step, out, err)));
+                    let mut res = match r {
+                        Ok(r) => r,
+                        Err(_) => {
+                            let g = PANIC_INFO.lock().map(|g| g.clone()).unwrap_or_default();
+                            StepRes { outcome: "panic".into(), code: 101, panic_loc: g.0, panic_msg: g.1, ..Default::default() }
+                        }
+                    };
+                    res.idx = i;
+                    let line = serde_json::to_string(&res).unwrap_or_else(|_| String::from("{}"));
+                    seams::raw_write_all(meta_fd, format!("{{\"done\":{line}}}\n").as_bytes());
+                }
+            })
             .unwrap_or_else(|_| harness_die("cannot spawn step thread"));
-        let mut res = match handle.join() {
-            Ok(r) => r,
-            Err(_) => {
-                let g = PANIC_INFO.lock().map(|g| g.clone()).unwrap_or_default();
-                StepRes { outcome: "panic".into(), code: 101, panic_loc: g.0, panic_msg: g.1, ..Default::default() }
+        let _ = handle.join();
+    } else {
+        for (i, (step, (out, err))) in steps.into_iter().zip(captures.into_iter()).enumerate() {
+            seams::raw_write_all(meta_fd, format!("{{\"start\":{i}}}\n").as_bytes());
+            seams::register_fd(out.as_raw_fd(), FdClass::Out);
+            seams::register_fd(err.as_raw_fd(), FdClass::Out);
+            if let Ok(mut g) = PANIC_INFO.lock() {
+                *g = (String::new(), String::new());
             }
-        };
-        res.idx = i;
-        let line = serde_json::to_string(&res).unwrap_or_else(|_| String::from("{}"));
-        seams::raw_write_all(meta_fd, format!("{{\"done\":{line}}}\n").as_bytes());
+            // A fresh thread per command: RandomState caches its keys per thread, and the
+            // shipped binary runs on an 8 MiB main-thread stack.
+            let handle = std::thread::Builder::new()
+                .stack_size(STACK_BYTES)
+                .spawn(move || run_step(&step, out, err))
+                .unwrap_or_else(|_| harness_die("cannot spawn step thread"));
+            let mut res = match handle.join() {
+                Ok(r) => r,
+                Err(_) => {
+                    let g = PANIC_INFO.lock().map(|g| g.clone()).unwrap_or_default();
+                    StepRes { outcome: "panic".into(), code: 101, panic_loc: g.0, panic_msg: g.1, ..Default::default() }
+                }
+            };
+            res.idx = i;
+            let line = serde_json::to_string(&res).unwrap_or_else(|_| String::from("{}"));
+            seams::raw_write_all(meta_fd, format!("{{\"done\":{line}}}\n").as_bytes());
+        }
     }
 
     let mut fin = FinalRes::default();
